@@ -1,5 +1,6 @@
 import Ledger.Driver.Core
 import Ledger.Spec.Store
+import Ledger.Spec.Reads
 
 /-!
 Handlers of the Core-area correspondence driver (`ldriver_core`):
@@ -441,10 +442,20 @@ def handleHistfold : Handler := fun inp out => do
   let instants := (txs.map (·.timestamp) ++ txs.map (·.insertedAt)).eraseDups
   let pitOk := instants.all fun t => [DateMode.insertion, DateMode.effective].all fun mode =>
     (assetsOf allPs).all fun s => sumOver accts (fun a => balanceAt recs { pit := some t } mode (a, s)) == 0
+  -- C04 / C05 on the abstract store of this history (back-dated / tied / future timestamps)
+  let stFinal := runOps (txs.map fun t => StoreOp.commit { postings := t.postings, timestamp := t.timestamp, insertedAt := t.insertedAt })
+  let keysAll := (allPs.map (·.srcKey) ++ allPs.map (·.dstKey)).eraseDups
+  let pcevOk := match stFinal with
+    | .error _ => false
+    | .ok st => pcevInvCheck st.moves &&
+        instants.all fun t => keysAll.all fun k =>
+          effectiveVolumesAt st.moves k t == volumesAt recs { pit := some t } .effective k &&
+          movesWindowVolumes st.moves { pit := some t } .insertion k == volumesAt recs { pit := some t } .insertion k
   let backdated := (txs.zip (txs.drop 1)).any fun (a, b) => b.timestamp < a.timestamp
   let ties := (txs.map (·.timestamp)).eraseDups.length < txs.length
   let sizeTag := if txs.length ≤ 3 then "len≤3" else if txs.length ≤ 10 then "len≤10" else "len>10"
-  pure { model := Json.mkObj [("note", note)], agree, prop := prop, propModel := pitOk,
+  pure { model := Json.mkObj [("note", if pcevOk then note else note ++ " abstract-store PCEV/C05 self-check failed")],
+         agree := agree && pcevOk, prop := prop, propModel := pitOk && pcevOk,
          nontrivial := txs.length ≥ 2 && (involvedOf allPs).length ≥ 3,
          tags := [sizeTag] ++ (if backdated then ["back-dated"] else []) ++ (if ties then ["tied-timestamps"] else []) ++
                  (shapeTags allPs).filter (fun t => t == "self-posting" || t == "multi-asset" || t == "amount≥2^64"),
